@@ -57,46 +57,22 @@ Lemma inconsistent_topic_is_rule :
 Proof. intros t p. rewrite inconsistent_topic_eq_spec. apply spec_topic_is_rule. Qed.
 
 (* ------------------------------------------------------------------ new data *)
-Lemma data_eq_spec_unless_fallback :
-  forall r s p, needs_da_fallback r s p = false -> dispatch_data r s p = spec_data r s p.
+Lemma data_eq_spec : forall r s p, dispatch_data r s p = spec_data r s p.
 Proof.
-  intros r s p H. unfold needs_da_fallback in H. unfold dispatch_data, spec_data, spec_calls, spec_target.
-  cbn [find lv]. destruct (en s KDOR), (en r KDA), (en s KDA), (en p KDA);
-    try reflexivity; discriminate.
+  intros r s p. unfold dispatch_data, spec_data, spec_calls, spec_target.
+  cbn [find lv]. destruct (en s KDOR), (en r KDA), (en s KDA), (en p KDA); reflexivity.
 Qed.
 
-(* inside the class the code calls nobody although the rule names a level *)
-Lemma data_fallback_missing :
-  forall r s p, needs_da_fallback r s p = true ->
-    dispatch_data r s p = [] /\
-    exists w, (w = Group \/ w = Participant) /\ spec_target KDA r s p = Some w /\
-              spec_data r s p = send (lv r s p w) w KDA.
-Proof.
-  intros r s p H. unfold needs_da_fallback in H. unfold dispatch_data, spec_data, spec_calls, spec_target.
-  cbn [find lv]. destruct (en s KDOR), (en r KDA), (en s KDA) eqn:Es, (en p KDA) eqn:Ep; try discriminate.
-  - split; [reflexivity|]. exists Group. cbn [lv]. auto.
-  - split; [reflexivity|]. exists Group. cbn [lv]. auto.
-  - split; [reflexivity|]. exists Participant. cbn [lv]. auto.
-Qed.
+(* ------------------------------------------------------------------ a match is lost *)
+Lemma publication_unmatched_eq_spec :
+  forall w b p, dispatch_publication_unmatched w b p = spec_calls KPM w b p.
+Proof. intros w b p. unfold dispatch_publication_unmatched. chain3 KPM w b p. Qed.
+
+Lemma subscription_unmatched_eq_spec :
+  forall r s p, dispatch_subscription_unmatched r s p = spec_calls KSM r s p.
+Proof. intros r s p. unfold dispatch_subscription_unmatched. chain3 KSM r s p. Qed.
 
 Definition w_all (ks : list kind) : lcfg := mkL true ks.
-
-Lemma data_eq_spec_refuted :
-  exists r s p, dispatch_data r s p <> spec_data r s p.
-Proof.
-  exists (w_all []), (w_all [KDA]), (w_all []). vm_compute. discriminate.
-Qed.
-
-(* ------------------------------------------------------------------ un-match *)
-Lemma unmatched_eq_spec_unless_lost :
-  forall k e g p, unmatch_lost k e g p = false -> @nil call = spec_calls k e g p.
-Proof.
-  intros k e g p H. unfold unmatch_lost in H. destruct (spec_calls k e g p); [reflexivity|discriminate].
-Qed.
-
-Lemma unmatched_refuted :
-  exists w b p, dispatch_publication_unmatched w b p <> spec_calls KPM w b p.
-Proof. exists (w_all [KPM]), (w_all []), (w_all []). vm_compute. discriminate. Qed.
 
 (* ------------------------------------------------------------------ the rule, declaratively *)
 Definition more_specific (a b : who) : bool :=
@@ -200,28 +176,25 @@ Proof.
 Qed.
 
 (* ------------------------------------------------------------------ events and histories *)
-Lemma dispatch_ev_eq_spec :
-  forall c e, ev_known c e = false -> dispatch_ev c e = spec_ev c e.
+Lemma dispatch_ev_eq_spec : forall c e, dispatch_ev c e = spec_ev c e.
 Proof.
-  intros c e H. destruct e; cbn [dispatch_ev spec_ev ev_known] in *.
+  intros c e. destruct e; cbn [dispatch_ev spec_ev].
   - rewrite publication_matched_eq_spec. reflexivity.
   - rewrite offered_incompatible_qos_eq_spec. reflexivity.
   - rewrite offered_deadline_missed_eq_spec. reflexivity.
-  - unfold dispatch_publication_unmatched. rewrite <- (unmatched_eq_spec_unless_lost _ _ _ _ H). reflexivity.
+  - rewrite publication_unmatched_eq_spec. reflexivity.
   - rewrite subscription_matched_eq_spec. reflexivity.
   - rewrite requested_incompatible_qos_eq_spec. reflexivity.
   - rewrite requested_deadline_missed_eq_spec. reflexivity.
-  - unfold dispatch_subscription_unmatched. rewrite <- (unmatched_eq_spec_unless_lost _ _ _ _ H). reflexivity.
-  - rewrite (data_eq_spec_unless_fallback _ _ _ H). reflexivity.
+  - rewrite subscription_unmatched_eq_spec. reflexivity.
+  - rewrite data_eq_spec. reflexivity.
   - rewrite sample_rejected_eq_spec. reflexivity.
 Qed.
 
-Lemma run_events_eq_spec :
-  forall c es, existsb (ev_known c) es = false -> run_events c es = spec_events c es.
+Lemma run_events_eq_spec : forall c es, run_events c es = spec_events c es.
 Proof.
-  intros c es. unfold run_events, spec_events. induction es as [|e t IH]; intros H; [reflexivity|].
-  cbn [existsb] in H. apply orb_false_iff in H. destruct H as [He Ht].
-  cbn [flat_map]. rewrite (dispatch_ev_eq_spec _ _ He), (IH Ht). reflexivity.
+  intros c es. unfold run_events, spec_events. induction es as [|e t IH]; [reflexivity|].
+  cbn [flat_map]. rewrite dispatch_ev_eq_spec, IH. reflexivity.
 Qed.
 
 Lemma chain3_at_most_one :
@@ -236,11 +209,9 @@ Proof. intros l w k. unfold send. destruct (l_inst l); cbn; lia. Qed.
 (* every event, known class or not: at most one listener is called *)
 Lemma dispatch_ev_at_most_one : forall c e, (length (dispatch_ev c e) <= 1)%nat.
 Proof.
-  intros c e. destruct e; cbn [dispatch_ev]; rewrite map_length;
-    try (apply chain3_at_most_one; apply send_at_most_one);
-    try (cbn; lia).
-  unfold dispatch_data. destruct (en (w_sub c) KDOR); [apply send_at_most_one|].
-  destruct (en (rd c r) KDA); [apply send_at_most_one|cbn; lia].
+  intros c e. rewrite dispatch_ev_eq_spec. destruct e; cbn [spec_ev]; rewrite map_length;
+    try apply spec_calls_at_most_one.
+  unfold spec_data. destruct (en (w_sub c) KDOR); [apply send_at_most_one|apply spec_calls_at_most_one].
 Qed.
 
 Lemma run_events_length : forall c es, (length (run_events c es) <= length es)%nat.
@@ -249,12 +220,10 @@ Proof.
   cbn [flat_map length]. rewrite app_length. pose proof (dispatch_ev_at_most_one c e). lia.
 Qed.
 
-Lemma run_history_eq_spec :
-  forall h, existsb (fun we => ev_known (fst we) (snd we)) h = false -> run_history h = spec_history h.
+Lemma run_history_eq_spec : forall h, run_history h = spec_history h.
 Proof.
-  intros h. unfold run_history, spec_history. induction h as [|[w e] t IH]; intros H; [reflexivity|].
-  cbn [existsb fst snd] in H. apply orb_false_iff in H. destruct H as [He Ht].
-  cbn [flat_map fst snd]. rewrite (dispatch_ev_eq_spec _ _ He), (IH Ht). reflexivity.
+  intros h. unfold run_history, spec_history. induction h as [|[w e] t IH]; [reflexivity|].
+  cbn [flat_map fst snd]. rewrite dispatch_ev_eq_spec, IH. reflexivity.
 Qed.
 
 Lemma run_history_length : forall h, (length (run_history h) <= length h)%nat.
@@ -284,5 +253,24 @@ Lemma decision_tables :
   table3 KRIQ dispatch_requested_incompatible_qos = true /\
   table3 KODM dispatch_offered_deadline_missed = true /\
   table3 KPM dispatch_publication_matched = true /\
-  table3 KOIQ dispatch_offered_incompatible_qos = true.
+  table3 KOIQ dispatch_offered_incompatible_qos = true /\
+  table3 KPM dispatch_publication_unmatched = true /\
+  table3 KSM dispatch_subscription_unmatched = true.
 Proof. vm_compute. repeat split. Qed.
+
+(* the new-data table: 2^7 combinations (three installed bits, three data-available mask bits,
+   data-on-readers at the subscriber) *)
+Definition table_data : bool :=
+  forallb (fun ir : bool => forallb (fun mr : bool => forallb (fun is_ : bool => forallb (fun ms : bool => forallb (fun ds : bool =>
+  forallb (fun ip : bool => forallb (fun mp : bool =>
+    let r := mkL ir (if mr then [KDA] else @nil kind) in
+    let s := mkL is_ ((if ms then [KDA] else @nil kind) ++ (if ds then [KDOR] else @nil kind)) in
+    let p := mkL ip (if mp then [KDA] else @nil kind) in
+    match dispatch_data r s p, spec_data r s p with
+    | [], [] => true
+    | [(a, x)], [(b, y)] => kind_eqb x y && match a, b with Entity, Entity | Group, Group | Participant, Participant => true | _, _ => false end
+    | _, _ => false
+    end) bools) bools) bools) bools) bools) bools) bools.
+
+Lemma decision_table_data : table_data = true.
+Proof. vm_compute. reflexivity. Qed.
